@@ -454,6 +454,9 @@ pub struct UseRec {
     pub stop_differs: bool,
 }
 
+/// `namespace A {} enum E { A };` - refused with "redefinition of 'A'" (as the reverse order always was)
+pub const EN_VALUE_NAMESPACE: &str = "enum value named like a namespace of its scope";
+
 #[derive(Clone, Debug)]
 pub struct Sim {
     scopes: Vec<Scope>,
@@ -464,8 +467,6 @@ pub struct Sim {
     pub tds: Vec<Option<Res>>,
     /// first reason why the front end must refuse the program
     pub invalid: Option<String>,
-    /// a declaration on which the front end is known to panic
-    pub panics: Option<String>,
 }
 
 impl Sim {
@@ -478,7 +479,6 @@ impl Sim {
             uses: Vec::new(),
             tds: Vec::new(),
             invalid: None,
-            panics: None,
         }
     }
     fn syms_of(&self, scope: usize, name: &str) -> &[Sym] {
@@ -679,33 +679,34 @@ impl Sim {
         self.end_body();
         self.end_body();
     }
-    /// what the generator produces: valid and not the known panic of end_enum (a value named like a namespace of the scope)
+    /// what the generator produces: an enum the front end takes
     pub fn can_en(&self, name: &str, vals: &[String]) -> bool {
-        self.valid_en(name, vals) && vals.iter().all(|v| self.syms_of(self.cur, v).is_empty())
+        self.en_refusal(name, vals).is_none()
     }
-    fn valid_en(&self, name: &str, vals: &[String]) -> bool {
+    /// why begin_enum / register_enum_value refuse the declaration (None: accepted)
+    fn en_refusal(&self, name: &str, vals: &[String]) -> Option<&'static str> {
         if self.syms_of(self.cur, name).iter().any(|s| matches!(s, Sym::Ty(_) | Sym::NsScope(_))) {
-            return false;
+            return Some("enum or enum value name already defined");
         }
         for (j, v) in vals.iter().enumerate() {
             if vals[..j].contains(v) || v == name {
-                return false;
+                return Some("enum or enum value name already defined");
             }
             if self.find_in_scope(self.cur, v).is_some() {
                 // Local / Global / EnumValue / Type / Function of that name in the parent scope
-                return false;
+                return Some("enum or enum value name already defined");
             }
-
+            if self.syms_of(self.cur, v).iter().any(|s| matches!(s, Sym::NsScope(_))) {
+                // since fix fe5dd8d register_enum_value refuses the name of a namespace of the scope that contains the enum
+                // (before: accepted there, and end_enum asserted that the value is the only symbol of its name - a panic)
+                return Some(EN_VALUE_NAMESPACE);
+            }
         }
-        true
+        None
     }
     pub fn decl_en(&mut self, name: &str, vals: &[String]) {
-        if !self.valid_en(name, vals) {
-            self.fail("enum or enum value name already defined");
-        }
-        if self.invalid.is_none() && vals.iter().any(|v| !self.syms_of(self.cur, v).is_empty()) && self.panics.is_none() {
-            // not a redefinition for register_enum_value, but end_enum asserts that the value is the only symbol of its name
-            self.panics = Some("enum value named like a namespace of its scope".to_string());
+        if let Some(why) = self.en_refusal(name, vals) {
+            self.fail(why);
         }
         let id = self.new_ent(EKind::Enum, self.ns_path(name));
         let parent = self.cur;
@@ -1140,6 +1141,33 @@ pub fn generate(rng: &mut Rng, hist: &mut Hist) -> Vec<Node> {
                 let p = missing[g.rng.below(missing.len() as u64) as usize].clone();
                 g.hist.add("use:unresolved");
                 nodes.push(Node::Fn(name, "-".into(), vec![Node::Use(k, p)]));
+            }
+        }
+    } else if g.rng.chance(1, 12) {
+        // a last enum one of whose values is spelled like a namespace of the root: the source must be refused with
+        // "redefinition of .." (register_enum_value since fix fe5dd8d; before: a panic in end_enum) - the negative side
+        // of the declaration rules
+        let nss: Vec<String> = g.sim.scopes[0]
+            .syms
+            .iter()
+            .filter(|(k, v)| v.iter().any(|s| matches!(s, Sym::NsScope(_))) && g.sim.find_in_scope(0, k).is_none())
+            .map(|(k, _)| k.clone())
+            .collect();
+        if !nss.is_empty() {
+            let ns = nss[g.rng.below(nss.len() as u64) as usize].clone();
+            let mut vals = Vec::new();
+            for _ in 0..g.rng.below(3) {
+                g.fresh += 1;
+                vals.push(format!("V{}", g.fresh));
+            }
+            let at = g.rng.below(vals.len() as u64 + 1) as usize;
+            vals.insert(at, ns);
+            g.fresh += 1;
+            let name = format!("n{}", g.fresh);
+            if g.sim.en_refusal(&name, &vals) == Some(EN_VALUE_NAMESPACE) {
+                g.hist.add("decl:en-value-named-like-namespace");
+                g.sim.decl_en(&name, &vals);
+                nodes.push(Node::En(name, vals));
             }
         }
     }
@@ -1679,6 +1707,10 @@ pub fn run_descriptor(desc: &str, out: &mut Out, hist: &mut Hist) {
                 // predicted: compared with the model, whose lookup must find nothing either
                 hist.add("names:source-rejected-unresolved-use");
                 out.case(&req, "g1:reject", "ok (source refused: a use finds nothing)");
+            } else if sim.invalid.as_deref() == Some(EN_VALUE_NAMESPACE) && e.contains("redefinition of") {
+                // predicted (register_enum_value): compared with the model, which must refuse the enum as well
+                hist.add("names:source-rejected-enum-value-named-like-namespace");
+                out.case(&req, "g1:reject", "ok (source refused: an enum value named like a namespace of its scope)");
             } else {
                 hist.add("names:source-rejected");
                 out.case(&req, "g1:reject", &format!("SKIP:source not accepted ({})", sim.invalid.clone().unwrap_or_default()));
@@ -1687,8 +1719,7 @@ pub fn run_descriptor(desc: &str, out: &mut Out, hist: &mut Hist) {
         }
         CompileOutcome::Panic(p) => {
             hist.add("names:panic-first-generation");
-            let why = sim.panics.clone().map(|w| format!(" [names: {}]", w)).unwrap_or_default();
-            out.case(&format!("C04.names\t{}\t?", desc), "g1:panic", &format!("FAIL:panic {}{}", p, why));
+            out.case(&format!("C04.names\t{}\t?", desc), "g1:panic", &format!("FAIL:panic {}", p));
             return;
         }
     };
